@@ -3,6 +3,7 @@
 package weshnet
 
 import (
+	"filippo.io/edwards25519"
 	"time"
 	"bytes"
 	crand "crypto/rand"
@@ -140,6 +141,26 @@ func (x *c07World) close() {
 	}
 	_ = x.gc.Close()
 	x.w.close()
+}
+
+// newOffCurveContact: a contact whose 32-byte key is well formed for every check made on contacts (length) but is not
+// the encoding of a curve point, so no contact group can be derived for it. The lifecycle is the same.
+func (x *c07World) newOffCurveContact() int {
+	raw := make([]byte, 32)
+	for {
+		_, _ = crand.Read(raw)
+		if _, err := new(edwards25519.Point).SetBytes(raw); err != nil {
+			break
+		}
+	}
+	pk, err := crypto.UnmarshalEd25519PublicKey(raw)
+	if err != nil {
+		panic(err)
+	}
+	seed := make([]byte, 32)
+	_, _ = crand.Read(seed)
+	x.contacts = append(x.contacts, &c07Contact{pk: pk, raw: raw, seed: seed})
+	return len(x.contacts) - 1
 }
 
 func (x *c07World) newContact() int {
@@ -539,7 +560,12 @@ func TestVerif_C07_Random(t *testing.T) {
 		x := c07NewWorld(t)
 		defer func() { x.close() }()
 		x.newContact()
-		x.newContact()
+		offCurve := rapid.IntRange(0, 2).Draw(rt, "offcurve") == 0
+		if offCurve {
+			x.newOffCurveContact()
+		} else {
+			x.newContact()
+		}
 		refused, implicit, backfill, malformed, reopened := false, false, false, false, false
 		n := rapid.IntRange(3, 40).Draw(rt, "n")
 		var names []string
@@ -581,7 +607,7 @@ func TestVerif_C07_Random(t *testing.T) {
 			rt.Fatalf("C07 %s: %s\n%s", id, msg, strings.Join(x.trace, "\n"))
 		}
 		acct.Case(refused && implicit && backfill, strings.Join(names, ","), func() any { return map[string]any{"kind": "random", "sequence": names} },
-			"random", lbl07(refused, "seq/refusal"), lbl07(implicit, "seq/implicit-path"), lbl07(backfill, "seq/backfill"), lbl07(malformed, "seq/malformed-input"), lbl07(reopened, "seq/reopen-mid-sequence"))
+			"random", lbl07(refused, "seq/refusal"), lbl07(implicit, "seq/implicit-path"), lbl07(backfill, "seq/backfill"), lbl07(malformed, "seq/malformed-input"), lbl07(reopened, "seq/reopen-mid-sequence"), lbl07(offCurve, "seq/contact-key-not-a-curve-point"))
 	})
 }
 
